@@ -5,7 +5,7 @@ From Coq Require Import ZArith List Bool Lia Floats.SpecFloat.
 From Coq Require Import Strings.Byte Strings.String.
 From Minidyn Require Import Base.Str.
 Import ListNotations.
-Open Scope Z_scope.
+Local Open Scope Z_scope.
 
 Definition prec := 53.
 Definition emax := 1024.
